@@ -9,9 +9,10 @@
 #define MT_INFO(p) ((struct alloc_info *)(p))
 #define MT_TRACED(t) ((t)->level != AWS_MEMTRACE_NONE)
 
-/* frames_per_stack == 1 is a case of its own: with a backtrace of exactly 2 frames s_alloc_tracer_track writes 2 frame
- * pointers into a stack_trace sized for 1 (memtrace.c:167, see units.json track_fps1).  The enforcing unit `track` covers
- * 2..128, `track_fps1` covers 1; the callers rely on the contract for 1..128. */
+/* frames_per_stack == 1 is a case of its own: before /repo commit e61ae68, with a backtrace of exactly 2 frames
+ * s_alloc_tracer_track wrote 2 frame pointers into a stack_trace sized for 1 (memtrace.c:167, findings/memtrace_fps1.c).
+ * The enforcing unit `track` covers 2..128, `track_fps1` covers 1 (its built-in mutant restores the defect); the callers
+ * rely on the contract for 1..128. */
 #ifndef MT_FPS_MIN
 #    define MT_FPS_MIN 1
 #endif
